@@ -159,6 +159,8 @@ def apply_faults(df, idcols, iddims, faults, dims, wide):
             affected.append(labels_of(i))
             old = df.loc[i, c]
             new = 9999 if isinstance(old, (int, np.integer)) else "zz_unknown"
+            if f.get("frac") and isinstance(old, (int, np.integer)):
+                new = float(old) + 0.75
             df[c] = df[c].astype(object)
             df.loc[i, c] = new
         elif kind == "blank":
